@@ -16,16 +16,19 @@ import (
 	"io"
 	"sort"
 	"strings"
+	"sync"
 	"testing"
 	"time"
 
 	ssi "github.com/nuts-foundation/go-did"
 	"github.com/nuts-foundation/go-did/did"
 	"github.com/nuts-foundation/go-did/vc"
+	"github.com/nuts-foundation/go-stoabs"
 	"github.com/nuts-foundation/nuts-node/audit"
 	nutsCrypto "github.com/nuts-foundation/nuts-node/crypto"
 	"github.com/nuts-foundation/nuts-node/crypto/hash"
 	"github.com/nuts-foundation/nuts-node/jsonld"
+	"github.com/nuts-foundation/nuts-node/storage"
 	"github.com/nuts-foundation/nuts-node/vcr"
 	v2 "github.com/nuts-foundation/nuts-node/vcr/api/vcr/v2"
 	"github.com/nuts-foundation/nuts-node/vcr/holder"
@@ -64,7 +67,19 @@ type env struct {
 	mirrors []didstore.Store
 }
 
+var relaxOnce sync.Once
+
+// relaxStoreLocks: go-stoabs takes its store lock with a REAL-time time-out (the node configures 1 s) and its lockWithCancel
+// can dead-lock when that time-out fires; on a loaded machine a starved goroutine is enough. The harness has no concurrent
+// store users, so the time-out is lifted for every bbolt store the test storage engines create (HARNESS_GUIDE addendum).
+func relaxStoreLocks() {
+	relaxOnce.Do(func() {
+		storage.DefaultBBoltOptions = append(storage.DefaultBBoltOptions, stoabs.WithLockAcquireTimeout(time.Hour))
+	})
+}
+
 func newEnv(t *testing.T) *env {
+	relaxStoreLocks()
 	logrus.SetOutput(io.Discard)
 	logrus.SetLevel(logrus.PanicLevel)
 	audit.VerifSilence()
